@@ -11,7 +11,7 @@ package surgeon
 //@   ensures [reads] err == nil ==> grtxid[srcPage] == ftxid(srcPage, old(fwcount)) && grroot[srcPage] == froot(srcPage, old(fwcount)) && (forall j int :: j != srcPage ==> grtxid[j] == old(grtxid[j]) && grroot[j] == old(grroot[j]))
 //@   ensures [write] err == nil ==> fwcount == old(fwcount) + 1 && fwpath == path && fwpageid == target
 //@   ensures [content] err == nil ==> fwtxid == grtxid[srcPage] && fwroot == grroot[srcPage] && fwsequence == grsequence[srcPage] && fwfreelist == grfreelist[srcPage] && fwpgid == grpgid[srcPage] && fwmagic == grmagic[srcPage] && fwversion == grversion[srcPage] && fwpagesize == grpagesize[srcPage] && fwflags == grflags[srcPage]
-//@   ensures [atmostone] fwcount <= old(fwcount) + 1
+//@   ensures [atmostone] fwcount <= old(fwcount) + 1 && fwcount >= old(fwcount)
 //@   ensures [unwritten] fwcount == old(fwcount) ==> fwpath == old(fwpath)
 //@   ensures [onlypath] fwcount > old(fwcount) ==> fwpath == path
 
@@ -21,7 +21,7 @@ package surgeon
 //@   ensures [write] err == nil ==> fwcount == old(fwcount) + 1 && fwpath == path && fwpageid == pageId
 //@   ensures [cleared] err == nil ==> fwfreelist == common.PgidNoFreelist && fwsumok
 //@   ensures [kept] err == nil ==> fwtxid == grtxid[pageId] && fwroot == grroot[pageId] && fwsequence == grsequence[pageId] && fwpgid == grpgid[pageId] && fwmagic == grmagic[pageId] && fwversion == grversion[pageId] && fwpagesize == grpagesize[pageId] && fwflags == grflags[pageId]
-//@   ensures [atmostone] fwcount <= old(fwcount) + 1
+//@   ensures [atmostone] fwcount <= old(fwcount) + 1 && fwcount >= old(fwcount)
 //@   ensures [unwritten] fwcount == old(fwcount) ==> fwpath == old(fwpath)
 //@   ensures [onlypath] fwcount > old(fwcount) ==> fwpath == path
 
